@@ -11,6 +11,7 @@
 **   iolog trace                   one line: every callback as <kind><request>:<answer>[!]  (! = altered by the fault)
 **   iolog verdict sM <lo> <hi>    compares the snapshot with the store now on [lo, min (hi, snapshot length)) (hi = -1: no limit)
 **                                 -> snap=<0|1> snaplen=<n> len=<n> changed=<bytes that differ> first=<offset|-1> shrunk=<0|1>
+**                                    ranges=<lo-hi,...|-> (maximal runs of changed offsets, inclusive; at most 12, `+` = more)
 **   iolog peek hN                 dataoffset=<psf->dataoffset> datalength= blockwidth= (read from the private struct; used only
 **                                 on the fault-free run to learn where the header region ends)
 */
@@ -178,20 +179,35 @@ op_iolog (char **tok, int ntok)
 		}
 	if (!strcmp (sub, "verdict") && ntok >= 5)
 	{	STORE *s = store_get (tok [2]) ;
-		long long lo = atoll (tok [3]), hi = atoll (tok [4]), changed = 0, first = -1, p ;
+		long long lo = atoll (tok [3]), hi = atoll (tok [4]), changed = 0, first = -1, p, run_lo = -1, run_hi = -1 ;
+		char ranges [400] ; int nranges = 0, rlen = 0 ;
 		if (s == NULL) { printf ("bad-op\n") ; return ; }
 		if (snaplen < 0)
 		{	printf ("ok snap=0 snaplen=0 len=%lld changed=0 first=-1 shrunk=0\n", (long long) s->len) ;
 			return ;
 			}
 		if (hi < 0 || hi > snaplen) hi = snaplen ;
-		for (p = lo ; p < hi ; p++)
-			if (p >= s->len || s->buf [p] != snap [p])
+		ranges [0] = 0 ;
+		for (p = lo ; p <= hi ; p++)
+		{	int differs = p < hi && (p >= s->len || s->buf [p] != snap [p]) ;
+			if (differs)
 			{	changed ++ ;
 				if (first < 0) first = p ;
+				if (run_lo < 0) run_lo = p ;
+				run_hi = p ;
 				}
-		printf ("ok snap=1 snaplen=%lld len=%lld changed=%lld first=%lld shrunk=%d\n", (long long) snaplen, (long long) s->len,
-				changed, first, s->len < snaplen) ;
+			else if (run_lo >= 0)
+			{	/* maximal runs of changed offsets, at most 12 (`+` = there are more) */
+				if (nranges < 12 && rlen < (int) sizeof (ranges) - 48)
+					rlen += snprintf (ranges + rlen, sizeof (ranges) - rlen, "%s%lld-%lld", nranges ? "," : "", run_lo, run_hi) ;
+				else if (nranges == 12 && rlen < (int) sizeof (ranges) - 2)
+					rlen += snprintf (ranges + rlen, sizeof (ranges) - rlen, "+") ;
+				nranges ++ ;
+				run_lo = -1 ;
+				}
+			}
+		printf ("ok snap=1 snaplen=%lld len=%lld changed=%lld first=%lld shrunk=%d ranges=%s\n", (long long) snaplen, (long long) s->len,
+				changed, first, s->len < snaplen, nranges ? ranges : "-") ;
 		return ;
 		}
 	if (!strcmp (sub, "peek") && ntok >= 3)
